@@ -205,5 +205,6 @@ if __name__ == "__main__":
         if not ok:
             nbad += 1
         print(f"{'ok ' if ok else 'BAD'} {v['kind']:6} {v['id']:40} {','.join(v['props']):12} {msg[:220]}")
-    print(f"{len(res)} variants, {nbad} checker defects")
+    nskip = sum(1 for v, r, ok, msg in res if r["status"] == "skipped")
+    print(f"{len(res)} variants, {nbad} checker defects" + (f", {nskip} skipped (anchor text not in the current tree)" if nskip else ""))
     sys.exit(2 if nbad else 0)
